@@ -90,6 +90,7 @@ class Ref:
         self.frames_local = None     # URDF arms: frames reported by the fresh arm at theta=0, in base coordinates
         self.urdf = False
         self.unreach = np.array([50.0, 0.0, 0.0])
+        self.L = []                  # local link frames (4x4), link i rides on joints 0..i
         self.prismatic = [bool(np.linalg.norm(self.S[:3, i]) < 1e-12) for i in range(self.S.shape[1])]
 
     @property
@@ -139,6 +140,7 @@ def build(name, seed=0):
         fo = None if arm._fixed_base_offset is None else arm._fixed_base_offset.gTM()
         ref = Ref(arm.getBasePos().gTM(), S_local, M_local, J_local, arm.joint_mins.copy(), arm.joint_maxs.copy(), fo)
         ref.urdf = True
+        ref.L = [Bi @ x.gTM() for x in (arm._link_homes_global or [])]
         ref.frames_local = [Bi @ x.gTM() for x in arm.getJointTransforms()]
         if bname != "I":
             with contextlib.redirect_stdout(io.StringIO()):
@@ -151,6 +153,11 @@ def build(name, seed=0):
     arm.setJointProperties(d["lo"].copy(), d["hi"].copy())
     J_local = [se3.T_from([0, 0, 0], d["homes"][:, i]) for i in range(d["S"].shape[1])]
     ref = Ref(B, d["S"], d["M"], J_local, d["lo"], d["hi"])
+    # link frames: half way between consecutive joint origins (the last one half way to the tool), given in global coordinates
+    n = d["S"].shape[1]
+    pts = [d["homes"][:, i] for i in range(n)] + [d["M"][:3, 3]]
+    ref.L = [se3.T_from([0, 0, 0], 0.5 * (pts[i] + pts[i + 1])) for i in range(n)]
+    arm.setOrigins(link_homes_global=[tm(B @ L) for L in ref.L])
     ref.unreach = np.array(d.get("unreach", (50.0, 0, 0)), float)
     return arm, ref
 
